@@ -155,3 +155,13 @@ def fact_oer_tag_len(v: Int, nb: Int):
     nofacts("oer_tag_len")
     ensures(oer_tag_len(v, nb) >= 1)
     fact_oer_tag_cont(v, nb - 8)
+
+
+def oer_ld_val__facts(v, nb, r):
+    return r >= 0
+
+
+@lemma
+def fact_oer_ld_val(v: Int, nb: Int):
+    nofacts("oer_ld_val")
+    ensures(oer_ld_val(v, nb) >= 0)
